@@ -7,6 +7,8 @@ import (
 	"go/types"
 	"strings"
 
+	"golang.org/x/tools/go/packages"
+
 	"lvcheck/internal/core"
 )
 
@@ -205,6 +207,166 @@ func init() {
 		Run: func(c *core.Ctx) []ob {
 			out := scanRedArg(c)
 			out = append(out, core.Floor("REDARG", nil, "modulus-subtraction / CRed sites", c.Stats["redarg_sites"], 10)...)
+			return out
+		}})
+}
+
+// MODSUB — in `M[i] - E`, with M a chain of moduli, E is a residue modulo that same M[i].
+//
+// The sign-folding idiom `tmp*pos + (P[i]-tmp)*neg` of the decomposition and bootstrapping code is only right when tmp
+// has been reduced modulo P[i]: a digit of a prime of Q copied as it is wraps around 2^64 for every P[i] smaller than
+// it. Rule: for every subtraction whose left operand is an element `M[I]` of a []uint64 obtained from
+// `ModuliChain()` (or a parameter/local named Q, P, moduli), every definition of the right operand that reaches the
+// subtraction (reaching definitions over go/cfg) is a full reduction with modulus argument `M[I]` (BRedAdd, BRed, MRed,
+// ...), a coefficient `X.Coeffs[I][..]` of the same index, `M[I] - …` itself, or `big.Int.Uint64()` of a value reduced
+// by big.Int.Mod. Functions named …SmallNorm… (inputs in {-1,0,1} by contract) are out of scope.
+func scanModSub(c *core.Ctx) []ob {
+	var out []ob
+	n := 0
+	c.FuncDecls(func(pk *packages.Package, file *ast.File, fd *ast.FuncDecl) {
+		if fd.Body == nil || fileIsTestSupport(c.Program, fd.Pos()) || inExamples(pk) || strings.Contains(fd.Name.Name, "SmallNorm") {
+			return
+		}
+		info := pk.TypesInfo
+		fkey := core.FuncKey(pk, fd)
+		isChain := func(e ast.Expr) bool {
+			id, ok := unparen(e).(*ast.Ident)
+			if !ok {
+				return false
+			}
+			o := info.Uses[id]
+			if o == nil {
+				return false
+			}
+			sl, ok := o.Type().Underlying().(*types.Slice)
+			if !ok {
+				return false
+			}
+			if b, ok := sl.Elem().Underlying().(*types.Basic); !ok || b.Kind() != types.Uint64 {
+				return false
+			}
+			switch id.Name {
+			case "Q", "P", "moduli", "Moduli", "qi", "pi":
+				return true
+			}
+			return false
+		}
+		var rd *reachInfo
+		var okDef func(e ast.Expr, chain, idx string, at ast.Node, depth int) bool
+		okDef = func(e ast.Expr, chain, idx string, at ast.Node, depth int) bool {
+			if e == nil || depth > 4 {
+				return false
+			}
+			e = unparen(e)
+			switch x := e.(type) {
+			case *ast.CallExpr:
+				name := ""
+				switch f := unparen(x.Fun).(type) {
+				case *ast.Ident:
+					name = f.Name
+				case *ast.SelectorExpr:
+					name = f.Sel.Name
+				}
+				if name == "Uint64" {
+					return true
+				}
+				if fullReducers[name] || name == "CRed" || name == "BRedAddLazy" {
+					for _, a := range x.Args {
+						if exprString(a) == chain+"["+idx+"]" {
+							return true
+						}
+					}
+					return false
+				}
+				if tv, ok := info.Types[x.Fun]; ok && tv.IsType() && len(x.Args) == 1 {
+					return okDef(x.Args[0], chain, idx, at, depth+1)
+				}
+				return false
+			case *ast.IndexExpr:
+				// X.Coeffs[idx][j]
+				if inner, ok := unparen(x.X).(*ast.IndexExpr); ok {
+					return exprString(inner.Index) == idx
+				}
+				return false
+			case *ast.BinaryExpr:
+				if x.Op == token.SUB && exprString(x.X) == chain+"["+idx+"]" {
+					return true
+				}
+				if x.Op == token.REM && exprString(x.Y) == chain+"["+idx+"]" {
+					return true
+				}
+				return false
+			case *ast.Ident:
+				v, ok := info.Uses[x].(*types.Var)
+				if !ok {
+					return false
+				}
+				if rd == nil {
+					rd = reachingDefs(info, fd)
+				}
+				rhs, initial, ok := rd.defsAt(at, v)
+				if !ok || initial || len(rhs) == 0 {
+					return false
+				}
+				for _, r := range rhs {
+					if !okDef(r, chain, idx, at, depth+1) {
+						return false
+					}
+				}
+				return true
+			}
+			return false
+		}
+		ast.Inspect(fd.Body, func(x ast.Node) bool {
+			be, ok := x.(*ast.BinaryExpr)
+			if !ok || be.Op != token.SUB {
+				return true
+			}
+			ie, ok := unparen(be.X).(*ast.IndexExpr)
+			if !ok || !isChain(ie.X) {
+				return true
+			}
+			if tv, ok := info.Types[be.Y]; ok && tv.Value != nil {
+				return true // M[i] - 1
+			}
+			n++
+			chain, idx := exprString(ie.X), exprString(ie.Index)
+			key := fmt.Sprintf("MODSUB:%s#%s", fkey, exprString(be))
+			if okDef(be.Y, chain, idx, be, 0) {
+				out = append(out, withProps(okOb("MODSUB", key, c.Rel(be.Pos()), "the subtrahend is a residue modulo the same element of the chain on every reaching definition", true), bufPropsRing(fkey)...))
+			} else {
+				out = append(out, withProps(violOb("MODSUB", key, c.Rel(be.Pos()), fmt.Sprintf("%s computes %s but a definition of %s that reaches it is not a reduction modulo %s[%s] (nor a coefficient of that index): a value above that modulus makes the subtraction wrap around 2^64", fkey, exprString(be), exprString(be.Y), chain, idx)), bufPropsRing(fkey)...))
+			}
+			return true
+		})
+	})
+	c.Stats["modsub_sites"] = n
+	return out
+}
+
+func bufPropsRing(fkey string) []string {
+	switch {
+	case strings.HasPrefix(fkey, "ring"):
+		return []string{"C02"}
+	case strings.Contains(fkey, "bootstrapping"):
+		return []string{"C18"}
+	case strings.HasPrefix(fkey, "schemes/ckks"):
+		return []string{"C07"}
+	}
+	return []string{"C04"}
+}
+
+func init() {
+	core.Register(&core.Rule{Name: "MODSUB", Props: []string{"C02", "C18", "C07", "C04"},
+		Doc: "in every subtraction `M[i] - E` with M a chain of moduli (local/parameter Q, P, moduli of type []uint64), every reaching definition of E is a reduction with modulus argument M[i], a coefficient of the same index, or M[i] - … itself (functions named …SmallNorm… excluded)",
+		Run: func(c *core.Ctx) []ob {
+			out := scanModSub(c)
+			for _, o := range control(c, "MODSUB", scanModSub, "lvfixture.foldDigit") {
+				out = append(out, withProps(o, "C02", "C18", "C07", "C04"))
+			}
+			for _, o := range core.Floor("MODSUB", nil, "modulus-minus-value subtractions", c.Stats["modsub_sites"], 6) {
+				out = append(out, withProps(o, "C02", "C18", "C07", "C04"))
+			}
 			return out
 		}})
 }
